@@ -70,6 +70,12 @@ func c12Run(c *ev.Ctx) {
 	if edgeAtClose {
 		nds = 1
 	}
+	// one case in 150: seven datasets of 10^4 short elements each in one file - more heap
+	// objects in one session than a 16-bit object index can count
+	manyObjects := c.Index%150 == 19
+	if manyObjects {
+		nds = 7
+	}
 	kinds := []string{"vstr", "v[]i32", "v[]i64", "v[]u32", "v[]u64", "v[]f32", "v[]f64"}
 	unitOf := map[string]int{"vstr": 1, "v[]i32": 4, "v[]i64": 8, "v[]u32": 4, "v[]u64": 8, "v[]f32": 4, "v[]f64": 8}
 	// count profile: mostly small, sometimes many collections, rarely 10^4 elements
@@ -98,9 +104,12 @@ func c12Run(c *ev.Ctx) {
 				count = r.Range(1, 20)
 			}
 		}
+		if manyObjects {
+			count = 10000
+		}
 		// one file in eight: long runs of empty elements (16-byte objects: 255 of them fill a
 		// collection to its last byte, the last object header ends exactly at the collection end)
-		emptyRun := r.Chance(1, 8) || edgeAtClose
+		emptyRun := (r.Chance(1, 8) || edgeAtClose) && !manyObjects
 		closer := false // the run ends with one short element (254 elements: 8 bytes stay free)
 		if emptyRun {
 			count = []int{253, 254, 254, 255, 256, 300, 510, 511, 600}[r.Intn(9)]
@@ -127,7 +136,9 @@ func c12Run(c *ev.Ctx) {
 					w = []int{0, 1, 0, 0, 0, 0}
 				}
 			}
-			if count > 600 {
+			if manyObjects {
+				w = []int{1, 12, 0, 0, 0, 0}
+			} else if count > 600 {
 				w = []int{10, 70, 10, 10, 0, 0}
 				if hugeBudget > 0 && r.Chance(1, 500) {
 					w = []int{0, 0, 0, 0, 1, 0}
